@@ -32,7 +32,8 @@ const MARGIN: u64 = 6;
 fn timeouts(workload: u64) -> (Duration, Duration) {
     match workload {
         0 => (Duration::from_secs(4), Duration::from_secs(6)),
-        _ => (Duration::from_secs(5), Duration::from_secs(3)),
+        // Very different timeouts: A is pinged only every 4 s (half of its own timeout), B every 1.5 s.
+        _ => (Duration::from_secs(8), Duration::from_secs(3)),
     }
 }
 
@@ -234,8 +235,19 @@ async fn run() {
             return;
         }
     };
-    let run_a = kit::spawn(mux_a.run());
-    let run_b = kit::spawn(mux_b.run());
+    // Virtual time at which each dispatcher ended.
+    let ended: Arc<Mutex<[Option<u64>; 2]>> = Arc::new(Mutex::new([None, None]));
+    let (ea, eb) = (ended.clone(), ended.clone());
+    let run_a = kit::spawn(async move {
+        let r = mux_a.run().await;
+        ea.lock().unwrap()[0] = Some(kit::now_us());
+        r
+    });
+    let run_b = kit::spawn(async move {
+        let r = mux_b.run().await;
+        eb.lock().unwrap()[1] = Some(kit::now_us());
+        r
+    });
 
     let mut tracker = Tracker::default();
     let received: Arc<Mutex<BTreeMap<&'static str, Vec<Vec<u8>>>>> = Arc::new(Mutex::new(BTreeMap::new()));
@@ -514,6 +526,36 @@ async fn run() {
                     format!("dispatcher {name} still running {}s after {fault_name} at frame {} of direction {}", t_max.as_secs() + 12, case.frame, case.dir),
                 );
                 return;
+            }
+        }
+        // (1b) an endpoint that received nothing any more gave up when ITS OWN timeout expired.
+        if matches!(case.kind, FaultKind::StallBoth | FaultKind::StallOneWay)
+            && let Some(t_f) = kit::fault_time_us(fault_name)
+        {
+            let ends = *ended.lock().unwrap();
+            for (ep, name, own) in [(0usize, "A", ta), (1usize, "B", tb)] {
+                // Direction d carries frames from endpoint d to endpoint 1-d: a one-way stall starves 1-d.
+                let starved = case.kind == FaultKind::StallBoth || ep == 1 - case.dir;
+                let Some(end) = ends[ep] else { continue };
+                if starved && end > t_f + own.as_micros() as u64 + 1_000_000 {
+                    kit::class_violation(
+                        "c06",
+                        "timeout-not-honoured",
+                        sig("timeout-not-honoured"),
+                        format!(
+                            "dispatcher {name} (connection_timeout {} s) ended {:.1} s after the link went silent ({fault_name} at frame {} of direction {}); the peer's timeout is {} s",
+                            own.as_secs(),
+                            (end - t_f) as f64 / 1e6,
+                            case.frame,
+                            case.dir,
+                            if ep == 0 { tb.as_secs() } else { ta.as_secs() }
+                        ),
+                    );
+                    return;
+                }
+                if starved {
+                    kit::probe("own_timeout_honoured");
+                }
             }
         }
         for (name, h) in [("A", run_a), ("B", run_b)] {
